@@ -245,6 +245,14 @@ var bombVarints = [][]byte{
 	{0xff, 0x7f},                   // 16383
 }
 
+var countBombs = [][]byte{
+	{0x80, 0x80, 0x80, 0x02},       // 4 194 304
+	{0x80, 0x80, 0x80, 0x08},       // 16 777 216
+	{0xff, 0xff, 0x7f},             // 2 097 151
+	{0x80, 0x80, 0x10},             // 262 144
+	{0x80, 0x80, 0x80, 0x80, 0x01}, // 268 435 456
+}
+
 func nbtNest(depth int, named bool) []byte {
 	b := []byte{9} // root: TAG_List
 	if named {
@@ -326,6 +334,9 @@ var regressions = []struct {
 	{"packet.AvailableCommands", []byte{3, 0x00, 2, 1, 2, 0x01, 1, 1, 1, 'a', 0x01, 1, 2, 1, 'a', 0}},
 	// AvailableCommands: literal "a" -> [2], literal "a" -> [root, itself]: the graph builder spun forever
 	{"packet.AvailableCommands", []byte{3, 0x00, 2, 1, 2, 0x01, 1, 2, 1, 'a', 0x01, 2, 0, 2, 1, 'a', 0}},
+	// AvailableCommands, acyclic on the wire: root -> [literal "a", argument "a", argument "a"], argument "a" -> [literal "a"]:
+	// merging the same-named siblings made the literal its own child, then recursed forever (stack overflow)
+	{"packet.AvailableCommands", []byte{3, 0x04, 3, 1, 2, 2, 0x05, 0, 1, 'a', 0x06, 1, 1, 1, 'a', 0, 0}},
 	// TagsUpdate: 2^31-1 tags claimed in 5 bytes (uncapped make(map, n))
 	{"config.TagsUpdate", []byte{0xff, 0xff, 0xff, 0xff, 0x07}},
 }
@@ -572,6 +583,15 @@ func buildCases(run *hx.Run, entries []pk.Entry) []tcase {
 				b = append(append(append([]byte(nil), pre...), b...), hx.Pick(r, bombVarints)...)
 			}
 			add(idx, "bomb", b)
+		}
+		// every plausible element count right after the id (most count-prefixed packets start with their count): values
+		// that `make` accepts but that are far beyond what the payload can back
+		for _, cnt := range countBombs {
+			add(idx, "count-bomb", cnt)
+		}
+		if len(base) > 1 {
+			k := 1 + r.Intn(min(len(base)-1, 3))
+			add(idx, "count-bomb", append(append([]byte(nil), base[:k]...), hx.Pick(r, countBombs)...))
 		}
 		// blob bombs for the types that read binary tags; once per (type, protocol class) to keep the volume down
 		named := int(e.Proto) < 764
